@@ -346,6 +346,9 @@ class SchemaGen:
             if depth < 3 and "n" in unwrap_nn(ty["l"]) and base(ty) not in self.leaf_names and len(self.possible(base(ty))) >= 2 and r.random() < 0.6:
                 n = r.randint(2, 4)
             items = [self.value_for(ty["l"], depth + 1, adv) for _ in range(n)]
+            if items and isinstance(items[0], dict) and "d" in items[0] and r.random() < 0.25:
+                import copy as _cp
+                items.insert(r.randrange(len(items) + 1), _cp.deepcopy(items[0]))       # the same record twice in one list
             if items and r.random() < self.exc_items:
                 tart = r.random() < 0.5
                 items[r.randrange(len(items))] = {"x": tart, "m": "item failure", "e": [["code", {"i": "9"}]] if tart and r.random() < 0.5 else []}
@@ -418,6 +421,9 @@ class SchemaGen:
                     res[coord] = {"k": "argEcho", "arg": "v"} if base(f["args"][0]["type"]) in self.leaf_names else {"k": "const", "v": "called"}
                 elif r.random() < fail:
                     res[coord] = r.choice([{"k": "raise", "v": {"x": False, "m": "boom", "e": []}},
+                                           {"k": "raise", "v": {"x": False, "m": "boom", "e": [], "cls": r.choice(["TimeoutError", "TimeoutError", "TimeoutError", "AssertionError", "NotImplementedError", "RuntimeError", "LookupError", "OSError"])}},
+                                           {"k": "raise", "v": {"x": False, "m": "", "e": [], "noargs": 1, "cls": r.choice(["ValueError", "TimeoutError", "AssertionError"])}},
+                                           {"k": "raise", "v": {"x": False, "m": "42", "e": [], "cls": "KeyErrorInt"}},
                                            {"k": "raise", "v": {"x": True, "m": "tart boom", "e": [["code", {"i": "42"}]]}},
                                            {"k": "const", "v": {"x": False, "m": "returned exc", "e": []}}, {"k": "const", "v": None}])
                 else:
@@ -427,7 +433,10 @@ class SchemaGen:
             for f in o["fields"]:
                 if r.random() < 0.12:
                     coord = f"{o['name']}.{f['name']}"
-                    if r.random() < fail * 2: res[coord] = {"k": "raise", "v": {"x": r.random() < 0.5, "m": "nested boom", "e": []}}
+                    if r.random() < fail * 2:
+                        res[coord] = {"k": "raise", "v": {"x": r.random() < 0.5, "m": "nested boom", "e": []}}
+                        if not res[coord]["v"]["x"] and r.random() < 0.4: res[coord]["v"]["cls"] = r.choice(["TimeoutError", "AssertionError", "RuntimeError", "OSError"])
+                        if not res[coord]["v"]["x"] and r.random() < 0.15: res[coord]["v"].update({"m": "", "noargs": 1})
                     elif f["args"] and base(f["args"][0]["type"]) == base(f["type"]) and base(f["type"]) in self.leaf_names and r.random() < 0.5 and tstr(unwrap_nn(f["args"][0]["type"])) == tstr(unwrap_nn(f["type"])):
                         res[coord] = {"k": "argEcho", "arg": f["args"][0]["name"]}
                     else: res[coord] = {"k": "const", "v": self.value_for(f["type"], 2, adv)}
@@ -473,9 +482,25 @@ class DocGen:
     nullable_default_vars = 0.2   # probability of declaring the variable of a non-null leaf position nullable WITH a default
     bad_var_defaults = 0.0    # probability of a variable default literal of the WRONG KIND with a look-alike text (C04 / C16)
 
+    stricter_vars = 0.15          # probability that a variable is declared with a STRICTER type than its position ([[Int]!] for [[Int]] ...)
+
+    def stricten(self, ty):
+        """`ty` with non-null added at some levels (never removed): every value of the result fits a `ty` position"""
+        r = self.r
+        if "nn" in ty:
+            st = self.stricten(ty["nn"])
+            return st if "nn" in st else {"nn": st}
+        inner = {"l": self.stricten(ty["l"])} if "l" in ty else dict(ty)
+        return {"nn": inner} if r.random() < 0.5 else inner
+
     def new_var(self, ty, vars_):
         name = f"v{len(vars_)}"
         d = None
+        if self.stricter_vars and self.r.random() < self.stricter_vars:
+            st = self.stricten(ty)
+            if st != ty:
+                vars_[name] = (st, None); self.stats["vars"] += 1
+                return name
         if is_nn(ty) and self.nullable_default_vars and base(ty) in self.sg.leaf_names and "l" not in unwrap_nn(ty) and self.r.random() < self.nullable_default_vars:
             # `$v: T = literal` used where T! is expected (legal: the default is non-null); an explicit null at run time
             # must fail the field, never reach the resolver
@@ -823,5 +848,12 @@ class DocGen:
             lit = self.sg.const_literal(ty, 0)
             out[n] = value_to_json(lit)
             if r.random() < 0.3: out[n] = self.floatify(ty, out[n])
+            t0_ = unwrap_nn(ty)
+            if "l" in t0_ and "l" in unwrap_nn(t0_["l"]) and r.random() < 0.35:
+                # a bare (non-list) value for a list of lists: wrapped once PER LEVEL ([[5]] for [[Int]])
+                leaf_t = t0_
+                while "l" in unwrap_nn(leaf_t): leaf_t = unwrap_nn(leaf_t)["l"]
+                out[n] = value_to_json(self.sg.const_literal({"nn": unwrap_nn(leaf_t)}, 0))
+                if r.random() < 0.3: out[n] = [out[n]]      # ... or a flat list for it: each item wrapped
         if r.random() < 0.2: out["extra_undeclared"] = 1
         return out, bad
